@@ -216,7 +216,7 @@ cbuffer C { float4 g_c; }
 void VS(uint vid : SV_VertexID, out float4 pos : SV_Position) { pos = float4(0, 0, 0, 1); }
 float4 PS(float4 pos : SV_Position) : SV_Target0 { return g_c; }
 Pipeline P { ComputeShader = CS; DefaultBindGroup = 1; }
-Pipeline Q { VertexShader = VS; PixelShader = PS; RenderTargetFormat0 = R8G8B8A8_UNORM; DepthTargetFormat = D32_FLOAT; CullMode = Back; }
+Pipeline Q { VertexShader = VS; PixelShader = PS; RenderTargetFormat0 = "R8G8B8A8_UNORM"; DepthTargetFormat = "D32_FLOAT"; CullMode = "Back"; }
 "#
         .into(),
     ));
